@@ -81,10 +81,12 @@ class RoutineDict(TypedDict):
     target_id: NotRequired[str]
 
 
-def parse_pos_mark_arg(arg_str: str) -> tuple[int, int]:
+def parse_pos_mark_arg(arg: str | int | float) -> tuple[int, int]:
+    # The coordinates may be given as JSON numbers or as strings.
+    arg_str = str(arg)
     arg_str_arr = arg_str.split(".")
-    if len(arg_str_arr) < 2:
-        return exps_int(arg_str), 0
+    if len(arg_str_arr) < 2 or (len(arg_str_arr) == 2 and arg_str_arr[1] == "0"):
+        return exps_int(arg_str_arr[0]), 0
     if arg_str_arr[1] != "5" or len(arg_str_arr) > 2:
         raise ValueError("Invalid position mark")
     return exps_int(arg_str_arr[0]), 2
